@@ -51,6 +51,52 @@ theorem fixedRound_inRange (f x : Rat) (h : fitsFixed f x = true) :
   rw [e1, e2]
   constructor <;> omega
 
+theorem pow10_pos (d : Int) : 0 < pow10 d := by
+  unfold pow10
+  split
+  · exact_mod_cast Nat.pow_pos (by decide : 0 < 10)
+  · apply div_pos one_pos
+    exact_mod_cast Nat.pow_pos (by decide : 0 < 10)
+
+theorem absQ_nonneg (x : Rat) : 0 ≤ absQ x := by
+  unfold absQ; split <;> linarith
+
+theorem absQ_bounds (x : Rat) : -absQ x ≤ x ∧ x ≤ absQ x := by
+  unfold absQ; split <;> constructor <;> linarith
+
+theorem le_maxAbs (xs : List Rat) (x : Rat) (h : x ∈ xs) : absQ x ≤ maxAbs xs := by
+  induction xs with
+  | nil => cases h
+  | cons a l ih =>
+    simp only [maxAbs]
+    rcases List.mem_cons.mp h with rfl | h'
+    · split <;> linarith
+    · have := ih h'
+      split <;> linarith
+
+/-- decode ∘ encode of fixed point with factor `10^d` is `np.round(x, d)`. -/
+theorem fixedDecode_round (d : Int) (x : Rat) :
+    fixedDecode (pow10 d) (fixedRound (pow10 d) x) = roundDec d x := rfl
+
+theorem decimalsFrom_sound (fuel : Nat) (d0 : Int) (xs : List Rat) (tol : Rat) (d : Int)
+    (h : decimalsFrom fuel d0 xs tol = some d) :
+    maxAbs xs * pow10 d < 2147483647 ∧ ∀ x ∈ xs, absQ (roundDec d x - x) < tol * absQ x := by
+  induction fuel generalizing d0 with
+  | zero => simp [decimalsFrom] at h
+  | succ fuel ih =>
+    simp only [decimalsFrom] at h
+    split at h
+    · cases h
+    · rename_i hfit
+      split at h
+      · rename_i hall
+        injection h with h; subst h
+        refine ⟨not_not.mp hfit, ?_⟩
+        intro x hx
+        have := List.all_eq_true.mp hall x hx
+        simpa using this
+      · exact ih _ h
+
 theorem interval_err (mn mx x : Rat) (n : Nat) (hn : 2 ≤ n) (hlt : mn < mx) (hx1 : mn ≤ x) (hx2 : x ≤ mx) :
     0 ≤ intervalDecode mn mx n (intervalEncode mn mx n x) - x ∧
     intervalDecode mn mx n (intervalEncode mn mx n x) - x < (mx - mn) / ((n : Rat) - 1) := by
